@@ -7,7 +7,9 @@ l.textref  : C04 at TEXT level.  The harness generates STRUCTURED modifiers (any
              rules.NewNetworkRule and answers Match on a request aimed at the values; the driver renders the same
              structure with the Lean `render` (first column: byte-identical renderings), runs parser + matcher models
              on the text, and computes the reference `specMatchText` from the STRUCTURED modifiers only
-             (theorems c04_grammar_*, c04_text_ref).
+             (theorems c04_grammar_*, c04_text_ref).  Group P2 widened the generator and the reference: quoted
+             client names ('Kids-PC', "Frank's phone", escaped quote characters), `~extension`, patterns beginning
+             with `/` that are not /regex/ rules (lean/UF/Compose5/GrammarW.lean, theorem c04_wide_text_ref).
 l.c09mixed : C09, the relation written from the property text (`disablesText`): sequences mixing rcode-only /
              CNAME / record rewrites and exceptions (the edge `[NOERROR rewrite, CNAME exception]` of the review),
              real DNSResult.DNSRewrites() vs model vs text-level reference (c09_text, c09_disablesText_eq).
